@@ -140,9 +140,7 @@ def run(ctx):
     for k in ('_replicate_rules', '_generate_node', '_sanity_check'):
         ctx.require_reach(k)
     for k in ('name-matching', 'name-not-matching'):
-        if not ctx.events.get(k):
-            ctx.inconclusive(f'{k}: nothing observed')
-    if not ctx.classes.get('schema-with-double-reference'):
-        ctx.inconclusive('no schema referencing one rule twice was generated')
+        ctx.need_event(k)
+    ctx.need_class('schema-with-double-reference')
     ctx.assumptions = ['interior tree nodes reported as #_<id> are not matches for a rule and are filtered out',
                        'constraints refer only to patterns of the rule itself or of rules it references']
